@@ -52,9 +52,20 @@ func VerifC11LocksV1() {
 		{"ActivateDebug", func() { c.ActivateDebug() }},
 		{"SetItemCollectionMetrics", func() { SetItemCollectionMetrics(c, map[string][]*dynamodb.ItemCollectionMetrics{}) }},
 	}
+	setups := map[string]func(){
+		"CreateTable": func() { c.DeleteTable(&dynamodb.DeleteTableInput{TableName: aws.String("other")}) },
+		"DeleteTable": func() { AddTable(c, "other", "p", "") },
+		"UpdateTable": func() {
+			c.UpdateTable(&dynamodb.UpdateTableInput{TableName: tbl, GlobalSecondaryIndexUpdates: []*dynamodb.GlobalSecondaryIndexUpdate{{Delete: &dynamodb.DeleteGlobalSecondaryIndexAction{IndexName: aws.String("late")}}}})
+		},
+	}
 	names := []string{}
 	for _, s := range secs {
-		nd.Section(s.name, s.f)
+		if setup := setups[s.name]; setup != nil {
+			nd.SectionSetup(s.name, setup, s.f)
+		} else {
+			nd.Section(s.name, s.f)
+		}
 		names = append(names, s.name)
 	}
 	for i := range names {
